@@ -1,7 +1,7 @@
 //! Tapes: the byte source of a run, assembled swarm-style from segments.
 
 use crate::rng::Rng;
-use crate::words::WORDS;
+use crate::words::{ROLL_MAX_WORDS, ROLL_ZERO_WORDS, WORDS};
 
 pub struct Tape {
     pub bytes: Vec<u8>,
@@ -20,6 +20,14 @@ impl Tape {
     pub fn push_word(&mut self, level: usize, rng: &mut Rng) {
         let ws = WORDS[level.min(30)];
         let w = ws[rng.usize_below(ws.len())];
+        self.bytes.extend_from_slice(&w);
+        self.mark();
+    }
+    /// A non-zero window with rolling value 0 (kind 0) or u32::MAX (kind 1).
+    pub fn push_special(&mut self, kind: u8, rng: &mut Rng) {
+        let ws = if kind == 0 { ROLL_ZERO_WORDS } else { ROLL_MAX_WORDS };
+        let w = ws[rng.usize_below(ws.len())];
+        self.mark();
         self.bytes.extend_from_slice(&w);
         self.mark();
     }
@@ -101,7 +109,18 @@ pub fn gen_payload(rng: &mut Rng, class: Class) -> Tape {
             let segs = rng.range(2, 8);
             for _ in 0..segs {
                 let n = rng.range(1, 900) as usize;
-                match rng.below(7) {
+                match rng.below(9) {
+                    7 => {
+                        // rolling value 0 / MAX windows, sometimes followed by a long zero run
+                        let k = rng.below(2) as u8;
+                        t.push_special(k, rng);
+                        if rng.chance(1, 2) {
+                            t.push_zeros(*rng.pick(&[1usize, 7, 63, 64, 65, 100, 200]));
+                        }
+                    }
+                    8 => {
+                        t.push_zeros(*rng.pick(&[63usize, 64, 65, 128, 300]));
+                    }
                     0 => t.push_random(n, rng),
                     1 => t.push_low_entropy(n, rng),
                     2 => t.push_periodic(n, rng),
@@ -143,8 +162,15 @@ pub fn gen_payload(rng: &mut Rng, class: Class) -> Tape {
                     }
                 }
             }
+            if rng.chance(1, 6) {
+                let k = rng.below(2) as u8;
+                t.push_special(k, rng);
+            }
             let tail = rng.below(30) as usize;
             t.push_random(tail, rng);
+            if rng.chance(1, 8) {
+                t.push_zeros(*rng.pick(&[7usize, 8, 64, 70]));
+            }
         }
         Class::ZeroTail => {
             let n = rng.range(1, 3000) as usize;
@@ -156,8 +182,19 @@ pub fn gen_payload(rng: &mut Rng, class: Class) -> Tape {
                     t.push_word(lvl, rng);
                 }
             }
-            let z = *rng.pick(&[6usize, 7, 7, 7, 8, 14]);
-            t.push_zeros(z);
+            match rng.below(5) {
+                0 => {
+                    // non-zero tail whose rolling value is nevertheless 0
+                    t.push_special(0, rng);
+                }
+                1 => {
+                    t.push_special(1, rng);
+                }
+                _ => {
+                    let z = *rng.pick(&[6usize, 7, 7, 7, 8, 14]);
+                    t.push_zeros(z);
+                }
+            }
         }
         Class::Border => {
             let k = rng.below(7);
@@ -179,7 +216,7 @@ pub fn gen_payload(rng: &mut Rng, class: Class) -> Tape {
         }
         Class::Buffer => {
             let j = rng.range(1, 4);
-            let d = *rng.pick(&[-7i64, -1, 0, 1, 7, 100]);
+            let d = *rng.pick(&[-7i64, -1, -1, 0, 0, 1, 1, 1, 7, 100]);
             let n = (32768 * j as i64 + d).max(1) as usize;
             match rng.below(3) {
                 0 => t.push_random(n, rng),
